@@ -276,6 +276,8 @@ def oracle_general(r):
         "row": row.name, "changed": row.name if changed else "-",
         "nontrivial": bool(changed and (lab["noncommuting"] if lab["class"] == 1 else lab["outcomes"] >= 2)),
         "deep": bool(o.get("deep")), "ign_active": bool(o.get("ign") and st_["ign"]), "frozen": bool(o.get("frozen")),
+        "ign_moment_class": bool(o.get("ign")) and H.ignored_moment_class(pristine),
+        "ign_moment_class_row": row.name if (o.get("ign") and H.ignored_moment_class(pristine)) else "-",
         "has_sub": st_["sub"] > 0, "has_cc": st_["cc_bound"] > 0, "has_meas": st_["meas"] > 0, "has_sym": st_["sym"] > 0,
         "has_zeroq": st_["zeroq"] > 0, "has_chan": st_["chan"] > 0, "nested": st_["nested"] > 0,
     })
@@ -990,7 +992,21 @@ def _f28(sub, recipe):
     return False
 
 
+def _f29(sub, recipe):
+    """unroll_circuit_op_greedy_frontier (insert_at_frontier) orders the unrolled ops by qubit frontier only: an op controlled by a key
+    can land before the measurement of that key when both come out of one sub-circuit."""
+    if recipe.get("row") != "unroll_circuit_op_greedy_frontier":
+        return False
+    for o in _ops_of(recipe):
+        if o.get("k") == "sub":
+            kinds = {o2.get("k") for o2 in G6.walk_ops(o.get("body"))}
+            if "m" in kinds and "cc" in kinds:
+                return True
+    return False
+
+
 KNOWN_FEATURES = {
+    "F29_unroll_greedy_frontier_key_order": _f29,
 
     "F20_measurement_qid_unorderable": _f20,
     "F23_qubit_mapping_subcircuit_simple_manager": _f23,
